@@ -86,6 +86,10 @@ def check_song(ctx, song, why, key="metadata"):
     ctx.evaluations += 1
     ctx.hist["rejected" if res.kind == "err" else "decoded"] += 1
     e1.check_model(ctx, key, text, res, msg="%s: [Song] body %r" % (why, song), drop=DROP)
+    if not text.isascii() and len(text) < 4000 and len(song) <= 3:
+        for via in ("path", "path-bom"):
+            ctx.evaluations += 1
+            e1.check_model(ctx, key, text, res, via=via, msg="%s (entry point %s): [Song] body %r" % (why, via, song), drop=DROP)
 
 
 def run_shard(shard, ctx):
@@ -274,6 +278,11 @@ def _adversarial(ctx):
     # the first line of a field wins, whatever follows
     for f in ("Name", "Offset", "Charter"):
         check_song(ctx, ["Resolution = 192", canon(f, 1), canon(f, 2)], "field %s given twice" % f)
+    # field names are case-sensitive: a line whose name differs in letter case is not that field's line
+    for f in ALL_FIELDS:
+        for nm in (f.lower(), f.upper(), f.swapcase()):
+            if nm != f:
+                check_song(ctx, ["Resolution = 192", canon(f, 1).replace(f, nm, 1)] + ([canon(f, 2)] if f != "Resolution" else []), "field name %s written %s" % (f, nm))
     # leading blanks of every kind
     for pad in ("", " ", "\t", " \t  "):
         check_song(ctx, [pad + "Resolution = 192"] + [pad + canon(f, 1) for f in OPTIONAL], "leading blanks %r" % pad)
